@@ -30,6 +30,7 @@ RULE = (
     "he fetch raises, never a table with cells missing."
     " A table containing cells whose OIDs collide in the low 32 bits of their string hash und"
     "er the shard's own hash seed (searched at run time)."
+    " Cells whose OIDs collide under zlib.crc32 / zlib.adler32."
 )
 ASSUMPTIONS = [
     "table() is addressed by the entry OID and bulktable() by the table OID, as their documentation and tests prescribe",
